@@ -11,7 +11,8 @@ and checks, against the independent vlib.dimse_ref (PS3.7 tables, struct + pydic
 
   M1 message class chosen / decoded == the intended one of the 23 types; type(q) is type(p); direction kept
   M2 every parameter of that message type (PS3.7 9.3/10.3 + Annex C status fields) equal on p and q
-     (multi-valued AttributeIdentifierList / OffendingElement as lists of 32-bit tags), p not mutated
+     (multi-valued AttributeIdentifierList / OffendingElement as lists of 32-bit tags), p not mutated by the
+     conversion, and p reports exactly the in-range values that were set (setter read-back)
   M3 data-set bytes equal
   M4 the PDVs produced reassemble (reference demultiplexer) into exactly one well-formed message whose
      command set is structurally sound (group 0000, ascending, CommandGroupLength == bytes following),
@@ -386,7 +387,12 @@ def check_one(spec, counters):
     intended = {kw: norm(kw, v) for kw, v in spec["p"].items()}
     for kw, v in intended.items():
         if before.get(kw) != v:
-            bump("setter_changed_value")      # e.g. invalid Move Originator AE title silently dropped: p is the input
+            # the setter raised nothing but the getter does not return the in-range value that was set
+            bump("setter_changed_value")
+            add("setter-readback|%s|%s|%s" % (t, kw, _kind(v, before.get(kw))),
+                "set %s=%r through the setter, the primitive reports %r" % (kw, v, before.get(kw)))
+    if mt.dataset and before["@dataset"] != ds_bytes:
+        add("setter-readback|%s|@dataset" % t, "data set parameter reads back differently")
     bump("checked_" + t)
     if ds_bytes:
         bump("with_dataset")
